@@ -5,6 +5,8 @@
 // exactly like the statement it replaced.
 package simhook
 
+import "time"
+
 // GoHook, when set, receives every goroutine the instrumented code starts.
 var GoHook func(site string, f func())
 
@@ -26,18 +28,27 @@ func Yield(site string) {
 	}
 }
 
-// LockF acquires a lock without ever blocking non-durably: under a scheduler
-// it spins on try with a yield in between; without one it just locks.
+// LockF acquires a lock without ever blocking non-durably (a goroutine waiting inside
+// sync.Mutex.Lock keeps testing/synctest from reaching quiescence for ever if the holder never
+// releases - which is what happens to the surviving goroutines of a simulated node whose
+// process has died while one of them held the lock). With a hook installed the lock is polled
+// with TryLock and short sleeps on the simulated clock in between, and the hook runs before
+// every attempt: it parks the goroutines of dead incarnations. Without a hook it just locks.
 func LockF(site string, try func() bool, lock func()) {
 	h := YieldHook
 	if h == nil {
 		lock()
 		return
 	}
+	d := time.Microsecond
 	for {
 		h(site)
 		if try() {
 			return
+		}
+		time.Sleep(d)
+		if d < time.Millisecond {
+			d *= 2
 		}
 	}
 }
